@@ -297,10 +297,11 @@ impl VersionNum {
     pub fn next(&self) -> Result<VersionNum> {
         let max = match self.width {
             0 => u32::MAX,
-            _ => u32::pow(10, self.width - 1) - 1,
+            // widths whose limit exceeds u32 are only bounded by u32 itself
+            _ => u32::checked_pow(10, self.width - 1).map_or(u32::MAX, |limit| limit - 1),
         };
 
-        if self.number + 1 > max as u32 {
+        if self.number >= max {
             return Err(RocflError::IllegalState(format!(
                 "Version cannot be greater than {}",
                 max
